@@ -87,6 +87,23 @@ pub fn write_all(root: &Path) -> i32 {
                     n += 1;
                 }
             }
+            "fz_program" | "fz_chunks" | "fz_xz_valid" => {
+                // structured byte formats: pseudo-random seeds of several lengths
+                let mut x = 0x1234_5678_9ABC_DEFFu64 ^ (t.len() as u64);
+                for i in 0..200usize {
+                    let len = 8 + (i * 7) % 400;
+                    let v: Vec<u8> = (0..len)
+                        .map(|_| {
+                            x ^= x << 13;
+                            x ^= x >> 7;
+                            x ^= x << 17;
+                            (x >> 32) as u8
+                        })
+                        .collect();
+                    put(&d, n, &v);
+                    n += 1;
+                }
+            }
             _ => {
                 // fz_xz_sealed: structured bytes; a few hand-made shapes
                 for i in 0..64u8 {
